@@ -133,6 +133,11 @@ def payload_cases(r, tier):
             cases.append(fdsess.make_case(items, meta={"payload": N, "noreader": True}))
             items = [("P", "fdstage p0 w%d | %s | fdstage p2 R" % (N, bad)), ("P", "fdstage q0 P S$?")]
             cases.append(fdsess.make_case(items, meta={"payload": N, "noreader": True}))
+    # a here-string of more than a pipe buffer that its command never reads, THEN a writer behind an early-exiting reader: the
+    # shell must not have been left ignoring SIGPIPE (its children inherit that: helper op `G` records the disposition it starts with)
+    items = [("P", "fdstage a0x0 <<< " + "x" * 100000), ("P", "fdstage q0 P S$?"),
+             ("P", "fdstage g0 G"), ("P", "fdstage p0 w300000 | fdstage p1 c | fdstage p2 x7"), ("P", "fdstage q1 P S$?")]
+    cases.append(fdsess.make_case(items, meta={"payload": 300000, "noreader": True}))
     return cases
 
 
